@@ -1,0 +1,22 @@
+//go:build verif
+
+package stream
+
+// VerifCepFeed hands one event to the stream exactly as the data goroutine does after taking it
+// from the data channel (DataProcessor.processItem: JOIN enrichment, WHERE, cep.Engine.Process,
+// outer projection, sinks), but synchronously in the caller's goroutine, so that the external
+// verification harness knows when the event has been processed. The stream's own goroutine keeps
+// running and stays idle because nothing is sent through Emit.
+func (s *Stream) VerifCepFeed(row map[string]any) {
+	NewDataProcessor(s).processItem(row)
+}
+
+// VerifCepLiftGuards raises the engine's memory guards (active runs per partition, rows per run)
+// through its public setters, so that small generated cases with highly ambiguous patterns cannot
+// hit them: the verified property is stated for executions in which the guards are not hit.
+func (s *Stream) VerifCepLiftGuards() {
+	if s.cep != nil {
+		s.cep.engine.SetMaxRuns(1 << 30)
+		s.cep.engine.SetMaxRunRows(1 << 30)
+	}
+}
